@@ -57,7 +57,7 @@ func (c07) Rule() string {
 		"exhaustive: ALL programs of length <=3 over a reduced alphabet on a text of <=4 units, an array of <=4 items and a tree " +
 		"of <=3 blocks. Oracle after every call, on the user-visible clone AND on the authoritative root: structure-equal to the " +
 		"model (keys, Len/Get(i), String + styled runs, counter value, ToXML/Len, splay weights, index<->position<->path round " +
-		"trips). Only calls valid for the model's state are made. Non-trivial = >=5 applied calls."
+		"trips). Only calls valid for the model's state are made. Non-trivial = >=5 applied calls. Trees include inline elements (mixed content); index/path round trip only where paths are unambiguous."
 }
 func (c07) Assumptions() []string {
 	return []string{
